@@ -348,3 +348,56 @@ def goto_loop_cases():
                     pre += [use(), use()]
                     out.append((p, p.block(pre)))
     return out
+
+
+def late_capture_cases():
+    """the jump that ends the scope of a local is written BEFORE the closure that captures the local (a label lets
+    control come back to the jump after the capture): whether the jump has to close the variable is only known at the
+    end of the block.  break out of every loop form, goto back above the declaration (a fresh variable per pass), goto
+    forward out of the block; the jump directly in an if or below further blocks; registers reused afterwards"""
+    out = []
+    for jump_kind, container in [("break", "while"), ("break", "repeat"), ("break", "fornum"), ("break", "forin"),
+                                 ("goto_top", "do"), ("goto_top", "function"), ("goto_top", "while-once"), ("goto_top", "chunk"),
+                                 ("goto_out", "do"), ("goto_out", "while-once")]:
+        for nest in (0, 1, 2):
+            for cap in ("get", "incget", "modafter"):
+                for two in (False, True):             # a second captured local declared next to the first
+                    p = Prog()
+                    pre = [p.local(["keep", "ki", "i"], [p.table([]), p.num(0), p.num(0)])]
+                    jstmt = {"break": p.brk, "goto_top": lambda: p.goto("top"), "goto_out": lambda: p.goto("out")}[jump_kind]()
+                    inner = p.block([jstmt])
+                    for k in range(nest):
+                        inner = p.block([p.local(["pad%d" % k], [p.num(k)]), p.do(inner)]) if k % 2 == 0 else p.block([p.do(inner)])
+                    jump = p.if_([p.bin("==", p.bin("%", p.id("i"), p.num(2)), p.num(0))], [inner])
+                    body = []
+                    if jump_kind == "goto_top":
+                        body.append(p.label("top"))
+                    body.append(p.local(["v"] + (["w"] if two else []), [p.bin("+", p.bin("*", p.id("i"), p.num(10)), p.num(1))] + ([p.str("w")] if two else [])))
+                    body += [p.label("again"), p.assign([p.id("i")], [p.bin("+", p.id("i"), p.num(1))]), jump]
+                    body += capture_stmts(p, cap, "v", "w" if two else None)
+                    body.append(p.if_([p.bin("<", p.id("i"), p.num(6))], [p.block([p.goto("again")])]))
+                    body.append(p.emit([p.str("fell out"), p.id("i"), p.id("v")]))
+                    if container == "while":
+                        pre.append(p.while_(p.true(), p.block(body + [p.brk()])))
+                    elif container == "repeat":
+                        pre.append(p.repeat(p.block(body), p.true()))
+                    elif container == "fornum":
+                        pre.append(p.fornum("q", p.num(1), p.num(1), 0, p.block(body)))
+                    elif container == "forin":
+                        pre.append(p.forin(["q1", "q2"], [p.call(p.id("pairs"), [p.table([("p", p.num(1))])])], p.block(body)))
+                    elif container == "do":
+                        pre.append(p.do(p.block(body)))
+                    elif container == "function":
+                        pre += [p.localfunction("run", p.func([], p.block(body))), p.callstat(p.call(p.id("run"), []))]
+                    elif container == "while-once":
+                        pre += [p.local(["once"], [p.true()]), p.while_(p.id("once"), p.block([p.assign([p.id("once")], [p.false()])] + body))]
+                    elif container == "chunk":
+                        pre += body
+                    if jump_kind == "goto_out":
+                        pre.append(p.label("out"))
+                    # the registers of the ended scope are used again before the closures run
+                    pre.append(p.local(["r1", "r2", "r3", "r4", "r5"], [p.num(100), p.num(200), p.num(300), p.num(400), p.num(500)]))
+                    use = lambda: p.fornum("j", p.num(1), p.id("ki"), 0, p.block([p.emit([p.id("j"), p.call(p.index(p.id("keep"), p.id("j")), [])])]))
+                    pre += [use(), use(), p.emit([p.str("regs"), p.id("r1"), p.id("r5")])]
+                    out.append((p, p.block(pre)))
+    return out
